@@ -11,7 +11,7 @@ static const double WEIGHTS[] = {0, 1, 2, 0.1, 0.3, 1e16};
 
 struct Sys
 {
-    int cap = 5, nW = 6;
+    int cap = 5, nW = 6, off = 0;  // weights WEIGHTS[off .. off+nW)
     template <class O>
     std::vector<std::string> variants(O &, const std::string &)
     {
@@ -55,12 +55,12 @@ struct Sys
         std::vector<std::string> ops;
         int n = o.p->size();
         if (n < cap)
-            for (int k = 0; k < nW; ++k)
+            for (int k = off; k < off + nW; ++k)
                 ops.push_back("A " + std::to_string(k));
         for (int i = 0; i < n; ++i)
             ops.push_back("R " + std::to_string(i));
         for (int i = 0; i < n; ++i)
-            for (int k = 0; k < nW; ++k)
+            for (int k = off; k < off + nW; ++k)
                 if (o.p->tree_.front()[i] != WEIGHTS[k])
                     ops.push_back("U " + std::to_string(i) + " " + std::to_string(k));
         if (n > 0)
@@ -231,7 +231,8 @@ struct Sys
 
 static void configure(Sys &s, const std::string &job)
 {
-    sscanf(job.c_str(), "w%d-c%d", &s.nW, &s.cap);
+    s.off = 0;
+    sscanf(job.c_str(), "w%d-c%d-o%d", &s.nW, &s.cap, &s.off);
 }
 
 int main(int argc, char **argv)
@@ -242,7 +243,9 @@ int main(int argc, char **argv)
         // wN = first N weights of {0,1,2,0.1,0.3,1e16}
         if (a.thorough())
             return std::vector<std::string>{"w3-c7", "w5-c5", "w6-c5", "w6-c6"};
-        return std::vector<std::string>{"w3-c6", "w5-c4", "w6-c4"};
+        // w3-c6-o3: the three weights that are NOT exactly representable / of huge ratio, up to 6 elements (sum trees with an odd row above
+        // the leaves need >= 5 elements, rounding in the partial sums needs such weights)
+        return std::vector<std::string>{"w3-c6", "w5-c4", "w6-c4", "w3-c6-o3"};
     };
     H.run = [](const std::string &job, const vf::Args &a, vf::Report &r) {
         Sys s;
